@@ -152,8 +152,10 @@ theorem RotatePoint_eq_model (p : Int × Int) (r : Nat)
 theorem IsInBottomLeft_eq_model (p : Int × Int) :
     PredictionSchemeNormalOctahedronCanonicalizedTransformBase.IsInBottomLeft p = Octa.isInBottomLeft p := by
   rw [Bool.eq_iff_iff]
-  dsimp only [PredictionSchemeNormalOctahedronCanonicalizedTransformBase.IsInBottomLeft, Octa.isInBottomLeft]
-  split <;> simp
+  unfold PredictionSchemeNormalOctahedronCanonicalizedTransformBase.IsInBottomLeft Octa.isInBottomLeft
+  simp only [decide_eq_true_eq, Bool.decide_or, Bool.decide_and, Bool.or_eq_true, Bool.and_eq_true, Bool.if_true_left,
+    Bool.if_false_right, Bool.if_true_right, Bool.if_false_left]
+  repeat' (first | omega | split)
 
 /-! ### wrap transform (prediction_scheme_wrap_*.h) -/
 
